@@ -510,6 +510,7 @@ for _pid, _what in (("C03", "a drawn valid RESULT returned by the stub; oracles:
                     ("C04", "values on both sides of every validation boundary (one constraint instance broken per exchange: required, enum, format, pattern, min/max incl. exclusive, lengths in runes vs bytes, at every nesting depth, in every location) and invalid RESULTS; oracles: stub invoked iff the model says the request is valid; 4xx with the documented error name for the broken rule; whatever reaches the stub satisfies the design (also under cut/flip/dup faults); the client refuses results that violate the result's constraints"),
                     ("C06", "designs with Basic/APIKey/JWT/OAuth2 schemes in 1-3 alternative requirements of 1-2 schemes at API/service/method level with NoSecurity overrides, credentials in Authorization/custom headers/query; per exchange a drawn accept/reject vector and credential strings (spaces, Bearer prefixes, colons, non-ASCII); oracles: user code runs iff the first requirement (in design order) whose callbacks all accept exists, exact callback sequence with short-circuit, each callback gets the credential the client was given (bearer prefix removed for header tokens) and the declared/required scopes, total failure returns the last callback's error, NoSecurity triggers no callback"),
                     ("C08", "methods whose result is a result type with 1-3 views (partial default view, nested result types with per-attribute view overrides, fixed views); the stub returns a full value and a view name that is defined, empty or undefined; fault: the network rewrites the goa-view header to another defined view, an undefined one or nothing; oracles: JSON keys on the wire are exactly the view's attributes (recursively), goa-view equals the rendered view, the client's value equals the projection and has nothing set outside it, an undefined view from the service never yields a success, an undefined label is refused, a relabelled response never yields attributes outside the labelled view"),
+                    ("C14", "valid, boundary and single-constraint-violating requests (as in C04) and declared errors; every intact exchange is replayed into kin-openapi's openapi3filter loaded with the openapi3.json goa generated for the design; oracles: the document accepts the request iff the reference model says it satisfies the design (disagreements between server and model are C04's and not reported twice), and every success or declared-error response conforms to the documented response for its status; formats are not compared"),
                     ("C05", "the stub returns declared errors (Make<Name>), wrapped declared errors, undeclared service errors with every flag combination, plain Go errors; oracles: designed status, same name/id/message/flags at the client, documented default mapping for undeclared errors, exactly one WriteHeader, body parses under its Content-Type, no handler gives up on its response")):
     PROPS[_pid] = dict(PROPS["C02"])
     PROPS[_pid]["rule"] = PROPS["C02"]["rule"].split("one run =")[0] + "one run = 6 (quick) / 20 (thorough) exchanges generated-client -> SimNet -> generated-server -> scripted stub with " + _what + "; distinct = (design, method, mode, fault multiset) tuples"
